@@ -11,8 +11,16 @@ namespace MantraDex
 
 abbrev Verdict := Option String
 
+/-- the tags of ALL failing clauses, in order, without repetitions, joined by commas (`none` = every clause
+    holds).  A monitor decides clauses of several properties at once; each property's check looks for its own
+    tags in the list, so a failing input is attributed to every property it refutes (the name is historical:
+    the function used to return the first failing tag only, which hid the others). -/
 def firstFail (xs : List (Bool × String)) : Verdict :=
-  (xs.find? (fun x => !x.1)).map (·.2)
+  let bad := (xs.filter (fun x => !x.1)).map (·.2)
+  let bad := bad.foldl (fun acc t => if acc.contains t then acc else acc ++ [t]) []
+  match bad with
+  | [] => none
+  | _ => some (",".intercalate bad)
 
 /-- C01: for every token the pool manager's balance covers the sum of the reserves -/
 def monPmCustody (xs : List (Nat × Nat)) : Verdict :=
